@@ -1,5 +1,7 @@
 import LyModel.Sib.RbInvLemmas
 import LyModel.Sib.RbRefine
+import LyModel.Props.C04
+import LyModel.Sib.RbMergeLemmas
 /-!
 # C04, stage 2 — the red-black tree behind a system-ordered (leaf-)list (`tree_data_sorted.c`), insertion and removal
 
@@ -215,5 +217,71 @@ theorem inv_reachable_rb (S : Schema) (cx : Cx) (fixed : Bool) (x : SRef) (hx : 
     Inv S cx (crun S cx fixed x c ops).sibs ∧
     LydsOk (crun S cx fixed x c ops).lyds (block x (crun S cx fixed x c ops).sibs.nodes) :=
   ⟨crun_sibs S cx fixed x ops c, crun_ok S cx fixed x hx ops c h hok hc href⟩
+
+/-- non-vacuity (audit): a sibling list under a container — system-ordered leaf-list `x = ⟨0, 1⟩`, a leaf, a second
+    system-ordered list — nine edits: five instances of `x` (the tree appears with the second), the leader unlinked (the
+    record passes to the next instance), a middle one unlinked, foreign nodes inserted and unlinked in between -/
+def rfS : Schema := fun r => match r.idx with | 0 => .list .sys | 1 => .leaflist .sys | _ => .leaf
+def rfCx : Cx := { nested := true, top := false, nsch := fun _ => 4 }
+def rfOps : List Op :=
+  [.insert ⟨1, some ⟨0, 1⟩, .int 5⟩, .insert ⟨2, some ⟨0, 2⟩, .str []⟩, .insert ⟨3, some ⟨0, 1⟩, .int 3⟩,
+   .insert ⟨4, some ⟨0, 0⟩, .str [97]⟩, .insert ⟨5, some ⟨0, 1⟩, .int 8⟩, .insert ⟨6, some ⟨0, 1⟩, .int 3⟩, .unlink 3,
+   .insert ⟨7, some ⟨0, 1⟩, .int 4⟩, .unlink 2, .unlink 7, .insert ⟨8, some ⟨0, 0⟩, .str [98]⟩]
+
+theorem rfOps_ok : HistOk rfS rfCx true ⟨[], none⟩ rfOps := C04.histOkB_sound (by decide)
+
+example : let c := crun rfS rfCx true ⟨0, 1⟩ ⟨⟨[], none⟩, Lyds.empty⟩ rfOps
+    c.sibs.nodes.map (·.id) = [4, 8, 6, 1, 5] ∧ (inorder c.lyds.tree).map (·.id) = [6, 1, 5] ∧
+    Inv rfS rfCx c.sibs ∧ LydsOk c.lyds (block ⟨0, 1⟩ c.sibs.nodes) :=
+  ⟨by decide, by decide,
+   (inv_reachable_rb rfS rfCx true ⟨0, 1⟩ rfl rfOps ⟨⟨[], none⟩, Lyds.empty⟩ (C04.inv_init _ _ (by decide))
+     ⟨rfl, ⟨trivial, trivial, rfl⟩, Or.inl ⟨rfl, Nat.zero_le _⟩⟩ rfOps_ok (by decide)).2⟩
+
+/-- non-vacuity (audit): `unlink_refines` on the state after the first six edits (instances 3, 3, 5, 8 of `x`): the LEADER
+    (id 3) leaves — the tree loses exactly it and stays a red-black tree -/
+example : let c := crun rfS rfCx true ⟨0, 1⟩ ⟨⟨[], none⟩, Lyds.empty⟩ (rfOps.take 6)
+    (inorder c.lyds.tree).map (·.id) = [3, 6, 1, 5] ∧
+    (inorder (cstep rfS rfCx true ⟨0, 1⟩ c (.unlink 3)).lyds.tree).map (·.id) = [6, 1, 5] ∧
+    LydsOk (cstep rfS rfCx true ⟨0, 1⟩ c (.unlink 3)).lyds (block ⟨0, 1⟩ (unlinkNode rfS rfCx c.sibs 3).nodes) := by
+  have h := inv_reachable_rb rfS rfCx true ⟨0, 1⟩ rfl (rfOps.take 6) ⟨⟨[], none⟩, Lyds.empty⟩ (C04.inv_init _ _ (by decide))
+    ⟨rfl, ⟨trivial, trivial, rfl⟩, Or.inl ⟨rfl, Nat.zero_le _⟩⟩ (C04.histOkB_sound (by decide)) (by decide)
+  exact ⟨by decide, by decide, (unlink_refines rfS rfCx ⟨0, 1⟩ rfl _ 3 h.2.1 h.2.2).2⟩
+
+/-! ## `lyds_merge`: a whole (leaf-)list moved onto the instances already present (Sib/RbMerge.lean)
+
+`mergeTree gt dst dl src sl`: `dl` / `sl` = destination / source instances in sibling order, `dst` / `src` = their trees (`nil` =
+none).  Source without tree (`lyds_merge_nodes1`): its instances are inserted in sibling order (into the tree built from
+the lone destination instance if there is none).  Source tree only (`lyds_merge_nodes2`): the DESTINATION instances are
+inserted into the SOURCE tree, which becomes the destination's.  Both (`lyds_merge_nodes3`): the source tree is taken apart
+in `rb_iter_*` order (post-order, `iterOrder`) and each node re-inserted into the destination tree. -/
+
+/-- whichever of the three paths runs: the tree the destination leader ends up with is a valid red-black tree, and its
+    in-order sequence — the sibling order the data nodes are linked in — is sorted and consists of exactly the instances of
+    both lists -/
+theorem lyds_merge_inorder {α : Type} (gt : α → α → Bool)
+    (total : ∀ a b, gt a b = false ∨ gt b a = false)
+    (trans : ∀ a b c, gt a b = false → gt b c = false → gt a c = false)
+    (dst : T α) (dl : List α) (src : T α) (sl : List α)
+    (hd : IsRB dst) (hdl : (dst = T.nil ∧ dl.length = 1) ∨ inorder dst = dl) (hds : dl.Pairwise (fun a b => gt a b = false))
+    (hs : IsRB src) (hsl : src = T.nil ∨ inorder src = sl) (hss : sl.Pairwise (fun a b => gt a b = false)) :
+    IsRB (mergeTree gt dst dl src sl) ∧
+    (inorder (mergeTree gt dst dl src sl)).Pairwise (fun a b => gt a b = false) ∧
+    (inorder (mergeTree gt dst dl src sl)).Perm (dl ++ sl) :=
+  mergeTree_ok gt total trans dst dl src sl hd hdl hds hs hsl hss
+
+/-- non-vacuity (audit): both sides with a tree (`lyds_merge_nodes3`: 2, 4, 6 leave the source tree in the order 2, 6, 4), a lone
+    destination instance under a source tree (`nodes2`), and a tree-less source (a duplicate) onto a tree (`nodes1`) -/
+def mgD : T Int := [1, 5, 9].foldl (fun t x => Rb.insert (fun d y => decide (d > y)) x t) T.nil
+def mgS : T Int := [2, 4, 6].foldl (fun t x => Rb.insert (fun d y => decide (d > y)) x t) T.nil
+
+example : iterOrder mgS = [2, 6, 4] ∧
+    inorder (mergeTree (fun d y => decide (d > y)) mgD [1, 5, 9] mgS [2, 4, 6]) = [1, 2, 4, 5, 6, 9] ∧
+    inorder (mergeTree (fun d y => decide (d > y)) T.nil [5] mgS [2, 4, 6]) = [2, 4, 5, 6] ∧
+    inorder (mergeTree (fun d y => decide (d > y)) mgD [1, 5, 9] T.nil [2, 4, 6]) = [1, 2, 4, 5, 6, 9] := by decide
+
+example : IsRB (mergeTree (fun d y => decide (d > y)) mgD [1, 5, 9] mgS [2, 4, 6]) :=
+  (lyds_merge_inorder (fun (d y : Int) => decide (d > y)) (by intro a b; simp; omega) (by intro a b c; simp; omega)
+    mgD [1, 5, 9] mgS [2, 4, 6] (rb_reachable _ _) (Or.inr (by decide)) (by decide) (rb_reachable _ _) (Or.inr (by decide))
+    (by decide)).1
 
 end LyModel.Props.C04Rb
